@@ -10,6 +10,9 @@ CHECKS = {
          "trusts the rig's generator to stay inside the stated domain; compiler/toml is linked from /repo's working tree by the wrapper's go build", "DESIGN.md §3 C20"),
 }
 NOT_YET = {}
+CHECKS["C10"] = ("verdict monitor (math/big range oracle) over the real type checker via the in-process pool with CLI confirmation, plus reference-value monitor over native executables and wasm modules printing every accepted literal",
+ "Held on N literals: for each of the 12 integer types, boundary values (min-1..max+1), 2^k+-1 and random magnitudes up to 2^300 spelled in 4 bases with separators and sign, in let/argument/return positions, were accepted exactly when in range; every accepted literal was then printed by a produced native executable (all widths) and wasm module (<=64 bit) and equalled its mathematical value.",
+ "trusts math/big; spelling space sampled, not enumerated; leading-zero decimals excluded", "DESIGN.md §3 C10")
 CHECKS["C11"] = ("verdict monitor over the real compiler (in-process worker pool + CLI confirmation): exhaustive 17x17 type pairs x 10 assignment-like positions against an arithmetic oracle; native run-time spot check of accepted pairs",
  "Exhaustive over the finite space the property names: every ordered pair of the 17 numeric types in 10 assignment-like positions was compiled by the real type checker; accepted-without-cast implied lossless by an oracle computed from ranges and significand widths (not from the compiler's table); every lossy pair was rejected implicitly and accepted with `as`; accepted pairs up to 64 bits were executed natively on the boundary values of S.",
  "trusts the oracle's float parameters (24/53/113/237-bit significands); positions outside the ten listed are not covered", "DESIGN.md §3 C11")
